@@ -96,6 +96,7 @@ class C03(Prop):
                          adv=rng.choice([(0, 0, 1), (0, 0, 1, 1, 2, 3), (0, 1, 2)]), max_depth=rng.choice([2, 3, 5]),
                          n_extra_threads=rng.choice([0, 0, 1, 2]), base=rng.choice([0, 1000]), extras=rng.random() < 0.5,
                          streams=rng.choice([(7,), (7, 9)]))
+        cfg.same_tid_process = cfg.n_extra_threads >= 1 and rng.random() < 0.5     # two processes whose threads share a tid
         case = case_from_cfg(rng, cfg)
         case["kind"] = "program"
         return case
@@ -225,6 +226,7 @@ class C13(Prop):
                          max_depth=rng.choice([2, 3, 5]), n_extra_threads=rng.choice([0, 0, 1]), bwd_thread=rng.random() < 0.6,
                          bwd_annotation=rng.random() < 0.5, base=rng.choice([1000, 10 ** 6, 0]), streams=rng.choice([(7,), (7, 9)]),
                          p_drop_kernel=rng.choice([0, 0.1]), p_drop_launch=rng.choice([0, 0.1]), unlinked_head=rng.choice([0, 1]))
+        cfg.same_tid_process = cfg.n_extra_threads >= 1 and rng.random() < 0.5
         if cfg.n_ranks > 1 and rng.random() < 0.5:
             cfg.per_rank = {1: {"bwd_annotation": not cfg.bwd_annotation}}       # ranks of one job instrumented differently
         if k % 40 in (7, 23, 31):
